@@ -89,4 +89,16 @@ def writes : Op F A → List String
   | .far _ => ["ff_dist", "ff_power", "far_field_angles", "far_field", "pulses.cache"]
   | .near _ => ["nf_param", "e_field", "h_field", "nf_power", "near_field_coord", "pulses.cache"]
 
+/-- the caches of the pulse container (`Pulse_Container.reset` plus its cached properties): all of
+them functions of the geometry alone — in the model they are the `zins` kind of cache, filled once
+and never invalidated.  The correspondence check compares this list with the attributes the real
+container carries and compares every cached value with a fresh object's at another frequency. -/
+def geoCaches : List String :=
+  ["dvecs_cache", "endseg_cache", "matrix_dvecs_cache", "matrix_endseg_cache", "_matrix_geo_unconnected",
+   "dir_sgn", "dirvec", "geo_idx", "geo_idx_0", "gnd_sgn", "ground", "i6", "idx", "inv_ground",
+   "is_non_vertical_grounded", "point", "radius", "same_dir", "same_geobj", "same_len", "seg_len", "sign",
+   "matrix_dir_sgn", "matrix_dirvec", "matrix_geo_idx", "matrix_geo_idx_0", "matrix_gnd_sgn", "matrix_ground",
+   "matrix_idx", "matrix_is_non_vertical_grounded", "matrix_point", "matrix_radius", "matrix_same_dir",
+   "matrix_same_geobj", "matrix_same_len", "matrix_seg_len", "matrix_sign", "pulse_idx"]
+
 end Pmn.Session
